@@ -7264,3 +7264,146 @@ def sw3(m, run, rule='SW3.sweep-on-real-shapes'):
             except Unsupported as ex:
                 raise AnalysisError('%s: interpreter met an unsupported construct: %s' % (key, ex))
             run.ob(rule, key, why is None, 'two sections: the input and its translate, weights kept; degree 1 along the sweep; input untouched' if why is None else why, 'geomdl/sweeping.py:%d in %s' % (fi.node.lineno, fi.key))
+
+
+# ====================================================================================== C02: tangents and normals from the derivative tables
+def tn3(m, run, rule='TN3.tangents-and-normals-from-the-derivative-tables'):
+    """TN3: _operations.tangent_curve_single, tangent_surface_single, normal_surface_single and their *_list variants interpreted on a
+    shape stand-in whose derivatives() is a recorder returning a table of symbolic vectors, vector_normalize replaced by a marker: the
+    curve tangent is (C, C'), asked with order 1 at the parameter; the surface tangents are (S, S_u, S_v) with S_u = SKL[1][0] and
+    S_v = SKL[0][1], asked at (u, v) with order 1; the normal is (S, S_u x S_v) with the real cross product; each vector goes through
+    vector_normalize exactly when normalize is set; the list variants return the single variant's result for every parameter, in order"""
+    from .skel import Sym
+    from .poly import Poly
+    marks = {}
+
+    def normed(sk, node, vec, *a, **k):
+        tag = len(marks)
+        marks[tag] = list(vec)
+        return [Sym('unit%d_%d' % (tag, c)) for c in range(len(vec))]
+
+    def origin_of(vec):
+        """the vector that was normalised to give `vec` (None if vec is not a normalised marker)"""
+        s = [_as_sym(x) for x in vec]
+        if any(x is None or x.q is not None or len(x.p.t) != 1 for x in s):
+            return None
+        names = [next(iter(x.p.atoms())) for x in s]
+        if not all(n.startswith('unit') for n in names):
+            return None
+        tags = {int(n[4:].split('_')[0]) for n in names}
+        return marks[tags.pop()] if len(tags) == 1 else None
+
+    def same_vec(got, want):
+        if not isinstance(got, (list, tuple)) or len(got) != len(want):
+            return False
+        return all(_as_sym(g) is not None and _as_sym(g).same(Sym(w)) for g, w in zip(got, want))
+
+    def check_vec(got, want, normalize, what):
+        if normalize:
+            o_ = origin_of(got) if isinstance(got, (list, tuple)) else None
+            if o_ is None:
+                return '%s is not passed through vector_normalize although normalize is set' % what
+            got = o_
+        elif isinstance(got, (list, tuple)) and origin_of(got) is not None:
+            return '%s is normalised although normalize is not set' % what
+        return None if same_vec(got, want) else '%s is %r, expected %r' % (what, got, want)
+    ab = dict(STD_ABSTRACTED)
+    ab[('linalg', 'vector_normalize')] = Py(normed, 'vector_normalize')
+    ab.pop(('linalg', 'vector_cross'), None)
+    asked = []
+
+    def curve(lab):
+        b = Bag('rec:curve', pdimension=1, rational=False, dimension=3)
+        b._a['derivatives'] = Py(lambda sk, node, u, order=0, **k: asked.append((u, k.get('order', order))) or [[Poly.atom('C%d_%s_%d' % (r, lab(u), c)) for c in range(3)] for r in range(k.get('order', order) + 1)], 'derivatives')
+        return b
+
+    def surface(lab):
+        b = Bag('rec:surface', pdimension=2, rational=False, dimension=3)
+        b._a['derivatives'] = Py(lambda sk, node, u, v, order=0, **k: asked.append(((u, v), k.get('order', order))) or
+                                 [[[Poly.atom('S%d%d_%s_%d' % (a_, b_, lab((u, v)), c)) for c in range(3)] for b_ in range(k.get('order', order) + 1)] for a_ in range(k.get('order', order) + 1)], 'derivatives')
+        return b
+
+    def symrows(x):
+        return [[Sym(y) if not isinstance(y, Sym) else y for y in r] for r in x]
+    lab1 = lambda u: str(u).replace('.', 'p')
+    lab2 = lambda uv: ('%s_%s' % uv).replace('.', 'p')
+    cases = []
+    for normalize in (False, True):
+        cases.append(('tangent_curve_single', curve, 0.25, lab1, normalize))
+        cases.append(('tangent_surface_single', surface, (0.25, 0.5), lab2, normalize))
+        cases.append(('normal_surface_single', surface, (0.25, 0.5), lab2, normalize))
+    for fname, mk, prm, lab, normalize in cases:
+        fi = m.func('_operations.' + fname)
+        key = '%s :: normalize=%s' % (fi.key, normalize)
+        why = None
+        try:
+            def one(sk, p_):
+                del asked[:]
+                obj = mk(lab)
+                # the recorders return Poly tables: convert to Sym for the interpreter
+                raw = obj._a['derivatives']
+                obj._a['derivatives'] = Py(lambda sk_, node, *a, _raw=raw, **k: (lambda t: [[Sym(x) for x in r] for r in t] if fname == 'tangent_curve_single' else [[[Sym(x) for x in pt] for pt in row] for row in t])(_raw.f(sk_, node, *a, **k)), 'derivatives')
+                out = sk.call(fi, [obj, p_, normalize], {})
+                return out, list(asked)
+            sk = SK(m, ab)
+            sk.exact = True
+            out, ask = one(sk, prm)
+            L = lab(prm)
+            if fname == 'tangent_curve_single':
+                if ask != [(prm, 1)]:
+                    why = 'derivatives is asked %r; the tangent needs order 1 at the parameter' % (ask,)
+                elif not isinstance(out, (tuple, list)) or len(out) != 2:
+                    why = 'does not return (point, tangent)'
+                else:
+                    why = (None if same_vec(out[0], [Poly.atom('C0_%s_%d' % (L, c)) for c in range(3)]) else 'the origin is not the curve point') or \
+                        check_vec(out[1], [Poly.atom('C1_%s_%d' % (L, c)) for c in range(3)], normalize, 'the tangent')
+            else:
+                if ask != [(tuple(prm), 1)]:
+                    why = 'derivatives is asked %r; order 1 at (u, v) is needed' % (ask,)
+                else:
+                    Su = [Poly.atom('S10_%s_%d' % (L, c)) for c in range(3)]
+                    Sv = [Poly.atom('S01_%s_%d' % (L, c)) for c in range(3)]
+                    S0 = [Poly.atom('S00_%s_%d' % (L, c)) for c in range(3)]
+                    if fname == 'tangent_surface_single':
+                        if not isinstance(out, (tuple, list)) or len(out) != 3:
+                            why = 'does not return (point, tangent along u, tangent along v)'
+                        else:
+                            why = (None if same_vec(out[0], S0) else 'the origin is not the surface point') or check_vec(out[1], Su, normalize, 'the u tangent (position 1)') or \
+                                check_vec(out[2], Sv, normalize, 'the v tangent (position 2)')
+                    else:
+                        cross = [Su[1] * Sv[2] - Su[2] * Sv[1], Su[2] * Sv[0] - Su[0] * Sv[2], Su[0] * Sv[1] - Su[1] * Sv[0]]
+                        if not isinstance(out, (tuple, list)) or len(out) != 2:
+                            why = 'does not return (point, normal)'
+                        else:
+                            why = (None if same_vec(out[0], S0) else 'the origin is not the surface point') or check_vec(out[1], cross, normalize, 'the normal')
+            # the list variant maps the single one
+            if why is None:
+                fl = m.func('_operations.' + fname + '_list')
+                plist = [prm, 0.75 if fname == 'tangent_curve_single' else (0.75, 0.125)]
+                sk2 = SK(m, ab)
+                sk2.exact = True
+                obj = mk(lab)
+                raw = obj._a['derivatives']
+                obj._a['derivatives'] = Py(lambda sk_, node, *a, _raw=raw, **k: (lambda t: [[Sym(x) for x in r] for r in t] if fname == 'tangent_curve_single' else [[[Sym(x) for x in pt] for pt in row] for row in t])(_raw.f(sk_, node, *a, **k)), 'derivatives')
+                outs = sk2.call(fl, [obj, list(plist), normalize], {})
+                outs = list(outs) if isinstance(outs, (list, tuple)) else outs
+                singles = []
+                for p_ in plist:
+                    sk3 = SK(m, ab)
+                    sk3.exact = True
+                    singles.append(one(sk3, p_)[0])
+
+                def canon(x):
+                    if isinstance(x, (list, tuple)):
+                        o_ = origin_of(x) if x and not isinstance(x[0], (list, tuple)) else None
+                        return ('unit', canon(o_)) if o_ is not None else tuple(canon(y) for y in x)
+                    s = _as_sym(x)
+                    return repr(s.p) if s is not None and s.q is None else repr(x)
+                if not isinstance(outs, list) or len(outs) != len(plist) or [canon(x) for x in outs] != [canon(x) for x in singles]:
+                    why = 'the list variant does not return, parameter by parameter and in order, what the single variant returns'
+        except Violation as v:
+            why = '%s %s' % (v.msg, v.where())
+        except Unsupported as ex:
+            raise AnalysisError('%s: interpreter met an unsupported construct: %s' % (key, ex))
+        run.ob(rule, key, why is None, 'the vectors are the first-order cells of the derivative table, normalised exactly when asked; the list variant maps the single one' if why is None else why,
+               'geomdl/_operations.py:%d in %s' % (fi.node.lineno, fi.key))
